@@ -145,6 +145,14 @@ func c20BuildState(c *fw.Ctx, blocks int) (*Env, *Gen) {
 	w.EntHostile, w.GovPct, w.VetoPct, w.LowGasPct, w.BadSeqPct = 5, 2, 0, 0, 0
 	RunMixed(e, g, w, blocks)
 	oddReceiverStreams(c, e, g, 60)
+	// a quarter of the states are walked on a fresh chain initialised from an export of this one:
+	// whatever the lists are built from must have come through the import (a later block follows,
+	// with further traffic, so that imported and newly written entities sit side by side)
+	if e.Halted == "" && r.Chance(25) {
+		if e.Reimport() {
+			RunMixed(e, g, w, 3)
+		}
+	}
 	if e.Halted != "" {
 		c.Count("halted_histories", 1)
 		e.L.Cleanup()
